@@ -87,6 +87,10 @@ pub enum AppVerdict {
     Silent(&'static str, &'static str),
     Unspecified(String),
     Answer(Req),
+    /// whether the message is answered is not settled (reason), but IF it is, the reply must be
+    /// the right reply to this request (e.g. a complete request followed by bytes that the
+    /// message's own length field excludes)
+    IfAnswered(Req, String),
 }
 
 /* ------------------------------------------------------------------ dispatch */
@@ -146,12 +150,23 @@ pub fn stream_verdict(sigs: &[Sig], st: &mut FlowState, seg: &[u8], ctx: &AppCtx
             return AppVerdict::Silent("C11", "empty-segment");
         }
         let v = message_verdict(p, seg, ctx, false);
-        if let AppVerdict::Unspecified(_) = v {
+        if let AppVerdict::Unspecified(_) | AppVerdict::IfAnswered(..) = v {
             st.muddled = true;
         }
         return v;
     }
     if st.answered {
+        if st.http_boundary && !seg.is_empty() {
+            // a further request on a connection whose earlier requests were complete and answered:
+            // if this segment is by itself a complete request it must be answered as well
+            st.http_boundary = false;
+            if let Dispatch::Matched(Proto::Http, _, _) = dispatch(sigs, seg, false) {
+                if let HttpStatus::Complete(at) = http_status(seg) {
+                    st.http_boundary = at + 1 == seg.len() && !announces_body(seg);
+                    return AppVerdict::Answer(Req::Http);
+                }
+            }
+        }
         return AppVerdict::Unspecified("segment after the first answered request".into());
     }
     if seg.is_empty() {
@@ -172,6 +187,7 @@ pub fn stream_verdict(sigs: &[Sig], st: &mut FlowState, seg: &[u8], ctx: &AppCtx
                 HttpStatus::Complete(at) => {
                     if at >= before {
                         st.answered = true;
+                        st.http_boundary = at + 1 == st.stream.len() && !announces_body(&st.stream);
                         AppVerdict::Answer(Req::Http)
                     } else {
                         AppVerdict::Unspecified("after completion".into())
@@ -204,7 +220,7 @@ pub fn stream_verdict(sigs: &[Sig], st: &mut FlowState, seg: &[u8], ctx: &AppCtx
                                 st.per_message = Some(p);
                             }
                         }
-                        AppVerdict::Unspecified(_) => st.muddled = true,
+                        AppVerdict::Unspecified(_) | AppVerdict::IfAnswered(..) => st.muddled = true,
                         // a first segment that was not answered leaves the flow in a state the
                         // statements do not describe (partial message)
                         _ => st.muddled = true,
@@ -220,6 +236,13 @@ pub fn stream_verdict(sigs: &[Sig], st: &mut FlowState, seg: &[u8], ctx: &AppCtx
 }
 
 /* ------------------------------------------------------------------ HTTP */
+
+/// the header block mentions a body (Content-Length / Transfer-Encoding, any case)
+fn announces_body(req: &[u8]) -> bool {
+    let l = req.to_ascii_lowercase();
+    let has = |n: &[u8]| l.windows(n.len()).any(|w| w == n);
+    has(b"content-length") || has(b"transfer-encoding")
+}
 
 #[derive(Clone, Debug, PartialEq, Eq)]
 pub enum HttpStatus {
@@ -537,6 +560,13 @@ pub fn stun_verdict(m: &[u8], _ctx: &AppCtx) -> AppVerdict {
         return AppVerdict::Silent("C15", "stun-not-binding-request");
     }
     let len = u16::from_be_bytes([m[2], m[3]]) as usize;
+    if len < m.len() - 20 {
+        // bytes after the message the header delimits: not part of the request
+        return match stun_verdict(&m[..20 + len], _ctx) {
+            AppVerdict::Answer(r) => AppVerdict::IfAnswered(r, "stun-trailing-bytes".into()),
+            _ => AppVerdict::Unspecified("stun-length-mismatch".into()),
+        };
+    }
     if len != m.len() - 20 {
         return AppVerdict::Unspecified("stun-length-mismatch".into());
     }
